@@ -143,8 +143,7 @@ def d20_region(s, i):
     its own"""
     if not any(t.get("with") is not None for t in s["def"]["tasks"]):
         return False
-    return any(o["op"] == "report" and (o["status"] in ("pending", "paused") or
-                                        (o["status"] in ("canceled", "canceling") and o.get("item") is None))
+    return any(o["op"] == "report" and o["status"] in ("pending", "paused", "canceled", "canceling")
                for o in s["ops"][:i + 1])
 
 
